@@ -105,6 +105,83 @@ fn check_case(o: &mut Outcome, lens: &[usize], plans: &[Vec<usize>]) {
     }
 }
 
+/// the backends' private digest / MAC writer adapters, observed through tokens: a token only equals the
+/// reference model's if the adapter fed exactly the PAE bytes (long pieces, three-fragment header piece)
+fn adapters<V: crate::backends::Full>(p: &mut Property) {
+    use crate::keys;
+    use crate::ops::{self, Nonce, join_token, split_token};
+    let name = V::NAME;
+    let lens: [usize; 9] = [0, 1, 127, 128, 129, 255, 256, 257, 600];
+    let n = (lens.len() * 3 * 2) as u64;
+    p.subs.push(
+        Sub::new(
+            format!("adapters/{name}"),
+            n,
+            format!("{{local, public}} x the long piece is the {{message, footer, assertion}} x its length in {lens:?}: the token equals the reference model's (local, fixed nonce; Ed25519) or its signature is valid over the specification's PAE bytes under an independent verifier (ECDSA, RSA-PSS)"),
+            move |idx, describe| {
+                let local = idx % 2 == 0;
+                let which = ((idx / 2) % 3) as usize;
+                let len = lens[(idx / 6) as usize];
+                let mut o = Outcome::new();
+                let long = content(len, 5);
+                let short = b"s".to_vec();
+                let (msg, ft, ad): (Vec<u8>, Vec<u8>, Vec<u8>) = match which {
+                    0 => (long.clone(), short.clone(), short.clone()),
+                    1 => (short.clone(), long.clone(), short.clone()),
+                    _ => (short.clone(), short.clone(), long.clone()),
+                };
+                let ad = if V::assertions() { ad } else { vec![] };
+                if describe {
+                    o.sample = Some(json!({"backend": name, "local": local, "long_piece": (["message", "footer", "assertion"][which]), "len": len}));
+                }
+                let ks = keys::keyset::<V>(false, 0);
+                if local {
+                    let kb = &ks.locals[2].bytes;
+                    let key: [u8; 32] = kb[..].try_into().unwrap();
+                    let nonce = vec![0x42u8; V::nonce_len()];
+                    let body = spec::local_encrypt(V::VER, "", &key, &nonce, &msg, &ft, &ad);
+                    let want = join_token(&format!("v{}.local.", V::VER), &body, if ft.is_empty() { None } else { Some(&ft) });
+                    match subject(|| ops::enc::<V>(&keys::local::<V>(kb), &msg, Some(&ft), &ad, &Nonce::Fixed(nonce.clone()))) {
+                        Ok(Ok(t)) if t == want => o.class("adapter-fed-pae-bytes"),
+                        Ok(Ok(t)) => o.violate(format!("adapters/{name}/local"), format!("token differs from the reference model with a {len}-byte {}: the MAC adapter did not receive the PAE bytes", ["message", "footer", "assertion"][which]), json!({"got": t, "want": want})),
+                        other => o.violate(format!("adapters/{name}/local-failed"), format!("{:?}", other.map(|r| r.is_ok())), json!({})),
+                    }
+                } else {
+                    let skb = &ks.secrets[0].bytes;
+                    let sk = keys::secret::<V>(skb);
+                    let pkb = keys::key_bytes(&sk.public_key());
+                    let pre = spec::public_preauth(V::VER, "", &pkb, &msg, &ft, &ad);
+                    match subject(|| ops::sign::<V>(&sk, &msg, Some(&ft), &ad, &Nonce::Lib)) {
+                        Ok(Ok(t)) => {
+                            let sig_ok = split_token(&t).map(|(_, b, _)| {
+                                let sig = &b[b.len().saturating_sub(V::sig_len())..];
+                                match V::VER {
+                                    1 => spec::rsa_pss_verify_independent(&pkb, &pre, sig),
+                                    3 => spec::p384_verify_independent(&pkb, &pre, sig),
+                                    _ => sig == spec::ed25519_sign(skb, &pre),
+                                }
+                            });
+                            if sig_ok == Some(true) {
+                                o.class("adapter-fed-pae-bytes");
+                            } else {
+                                o.violate_env(format!("adapters/{name}/public"), format!("signature is not over the specification's PAE bytes with a {len}-byte {}", ["message", "footer", "assertion"][which]), json!({"token": t}));
+                            }
+                            // and the verifying adapter accepts it
+                            match subject(|| ops::verify::<V>(&sk.public_key(), &t, &ad)) {
+                                Ok(Ok((c, _))) if c == msg => {}
+                                other => o.violate_env(format!("adapters/{name}/public-verify"), format!("own token rejected: {:?}", other.map(|r| r.is_ok())), json!({"token": t})),
+                            }
+                        }
+                        other => o.violate_env(format!("adapters/{name}/public-failed"), format!("{:?}", other.map(|r| r.is_ok())), json!({})),
+                    }
+                }
+                o
+            },
+        )
+        .witness(&["adapter-fed-pae-bytes"]),
+    );
+}
+
 pub fn build(ctx: &Ctx) -> Property {
     let mut p = Property::new("C15", "exploration");
     const L10: [usize; 10] = [0, 1, 2, 7, 8, 9, 255, 256, 257, 600];
@@ -240,6 +317,12 @@ pub fn build(ctx: &Ctx) -> Property {
         })
         .witness(&["injective-in-scope"]),
     );
-    p.assume("the backend digest / MAC writer adapters are private; they are exercised through C03 and C07, where a token or blob only matches the reference model if the adapter fed exactly these bytes (the three-fragment header piece included)");
+    adapters::<crate::backends::V1>(&mut p);
+    adapters::<crate::backends::V2>(&mut p);
+    adapters::<crate::backends::V3>(&mut p);
+    adapters::<crate::backends::V3L>(&mut p);
+    adapters::<crate::backends::V4>(&mut p);
+    adapters::<crate::backends::V4S>(&mut p);
+    p.assume("the backend digest / MAC writer adapters are private; they are observed through tokens (sub adapters/*, and C03 / C07): a token only matches the reference model, or verifies under an independent verifier, if the adapter fed exactly the PAE bytes (the three-fragment header piece included)");
     p
 }
